@@ -19,7 +19,8 @@ LEVEL = 'other'
 TARGETS = ['valjean.cosette.env:Env.from_file', 'valjean.cosette.env:Env.to_file', 'valjean.cosette.env:Env.merge_done_tasks',
            'valjean.cosette.env:Env.__getstate__', 'valjean.cosette.env:Env.__setstate__',
            'valjean.cambronne.common:read_env', 'valjean.cambronne.common:write_env']
-BOUNDS = {'quick': {'tasks': '1 (all 5 statuses), 2 (statuses DONE/FAILED/WAITING)', 'output_dir': 'present or absent per task',
+BOUNDS = {'quick': {'real pickle job': '2 tasks, payload plain / numpy array / an Env inside the payload, DONE or FAILED, written once or twice to a real directory',
+                    'tasks': '1 (all 5 statuses), 2 (statuses DONE/FAILED/WAITING)', 'output_dir': 'present or absent per task',
                     'faults': 'per file: older intact DONE file / missing before; write: ok, open fails (any errno), crash leaving empty or truncated file; '
                               'read: open fails (errno symbolic), garbage; unpickling raises any documented exception'},
           'thorough': {'tasks': '<= 2 with all statuses and faults; 3 with statuses DONE/FAILED and faults ok/crash-truncated', 'faults': 'as quick'}}
@@ -212,9 +213,76 @@ def _job(n, timeout_ms, statuses=None, first=None, light=False, seed=0):
                    require_checks=['read-back-holds-exactly-the-intact-DONE-entries'])
 
 
+def real_pickle_harness(ex):
+    """the real pickle on a real directory: solver-chosen payload kinds (plain, numpy array, an Env inside the payload), the
+    environment written ONCE or TWICE (checkpoint + final write) and read back; the live environment keeps working"""
+    import os
+    import shutil
+    import tempfile
+    import numpy as np
+    from valjean.cosette.env import Env
+    from valjean.cosette.task import TaskStatus
+    from valjean.cambronne.common import read_env, write_env
+    kinds = ['plain', 'array', 'nested-env']
+    tmp = tempfile.mkdtemp(prefix='verif_c14r_')
+    try:
+        env = Env()
+        want = {}
+        for i in range(2):
+            kind = kinds[ex.choice(len(kinds), f'payload{i}')]
+            status = [TaskStatus.DONE, TaskStatus.FAILED][ex.choice(2, f'status{i}')]
+            payload = {'plain': {'a': i, 'b': [1, 2]}, 'array': np.arange(3.0) + i, 'nested-env': Env({'inner': {'x': i}})}[kind]
+            odir = os.path.join(tmp, f't{i}')
+            os.makedirs(odir)
+            env[f't{i}'] = {'status': status, 'output_dir': odir, 'result': payload}
+            want[f't{i}'] = (status, kind, i)
+        raised = None
+        try:
+            for _ in range(1 + ex.choice(2, 'written-twice')):
+                write_env(env, filename=FILENAME, fmt='pickle')
+        except Exception as e:      # noqa
+            raised = f'{type(e).__name__}: {e}'
+        ex.check(raised is None, 'real-pickle:write_env-does-not-raise', detail=str(raised))
+        # the live environment is still usable (its locks are where they were)
+        try:
+            with env.lock:          # what every status / result update of the scheduler does first
+                pass
+            alive = True
+        except Exception as e:      # noqa
+            alive = f'{type(e).__name__}: {e}'
+        ex.check(alive is True, 'real-pickle:the-written-environment-is-still-usable', detail=str(alive))
+        for name, (status, kind, i) in want.items():
+            if kind == 'nested-env':
+                inner = env[name]['result']
+                ex.check(hasattr(inner, 'lock') and dict(inner) == {'inner': {'x': i}}, 'real-pickle:payload-objects-are-not-modified-by-writing')
+        try:
+            back = read_env(root=tmp, names=sorted(want), filename=FILENAME, fmt='pickle')
+        except Exception as e:      # noqa
+            ex.check(False, 'real-pickle:read_env-does-not-raise', detail=f'{type(e).__name__}: {e}')
+            return
+        good = set(back) == {n for n, (st, _, _) in want.items() if st == TaskStatus.DONE}
+        for name in back:
+            status, kind, i = want[name]
+            r = back[name].get('result')
+            if kind == 'plain':
+                good = good and r == {'a': i, 'b': [1, 2]}
+            elif kind == 'array':
+                good = good and isinstance(r, np.ndarray) and np.array_equal(r, np.arange(3.0) + i)
+            else:
+                good = good and isinstance(r, Env) and dict(r) == {'inner': {'x': i}}
+        ex.check(good, 'real-pickle:read-back-holds-exactly-the-DONE-entries-as-written')
+    finally:
+        shutil.rmtree(tmp, ignore_errors=True)
+
+
+def _job_real(timeout_ms, seed=0):
+    return run_sym('x', real_pickle_harness, timeout_ms=timeout_ms, seed=seed,
+                   require_checks=['real-pickle:read-back-holds-exactly-the-DONE-entries-as-written'])
+
+
 def jobs(tier):
     t = 20000
-    out = [('n1', _job, dict(n=1, timeout_ms=t))]
+    out = [('n1', _job, dict(n=1, timeout_ms=t)), ('real-pickle', _job_real, dict(timeout_ms=t))]
     if tier == 'quick':
         for f in ('DONE', 'FAILED'):
             out.append((f'n2-{f}', _job, dict(n=2, statuses=['DONE', 'FAILED', 'WAITING'], first=f, timeout_ms=t)))
@@ -227,6 +295,8 @@ def jobs(tier):
 
 
 def replay(rp):
+    if rp['job'] == 'real-pickle':
+        return replay_sym(real_pickle_harness, rp['inputs'])
     for j in jobs('thorough') + jobs('quick'):
         if j[0] == rp['job']:
             p = j[2]
